@@ -69,6 +69,19 @@ INS_FULL = ["{{", "}}", "]]", "{|", "|}", "<pre>", "</div>", "==", "'''"]
 INS_FEW = ["{{", "<pre>", "|}"]
 
 
+def placeholder_texts():
+    from wikitextprocessor.common import MAGIC_FIRST
+    forms = ["[[a|%s]]", "{{{a|%s}}}", "{{ar|%s}}", "{{#if:1|%s}}", "[http://x.y %s]", "<nowiki>%s</nowiki>", "{{ar|k=%s}}",
+             "{|\n|[[a|%s]]\n|}", "<b>{{ar|%s}}</b>"]
+    out = []
+    for f in forms:
+        for k in (0, 1, 2):
+            out.append(f % chr(MAGIC_FIRST + k))
+    for f, g in itertools.product(forms[:4], repeat=2):
+        out.append(f % chr(MAGIC_FIRST + 1) + " " + g % "b")
+    return out
+
+
 def check_parse(ctx, text, mode):
     """Returns (complaints, root or None)."""
     ctx.start_page("Tt")
@@ -140,6 +153,21 @@ def work(payload, skip, report):
                 run_text(ctx, acc, text, mode, {"input": text, "mode": mode})
             if i % 20011 == 0:
                 acc.sample({"input": text})
+        close_ctx(ctx)
+    elif kind == "texts":
+        _, texts = payload
+        ctx = make_ctx(True)
+        i = 0
+        for text in texts:
+            for mode in ({}, {"expand_all": True}):
+                if i in skip:
+                    acc.violation("returns_in_time", {"input": text, "mode": mode}, "hang", "returns")
+                    i += 1
+                    continue
+                report(i)
+                i += 1
+                run_text(ctx, acc, text, mode, {"input": text, "mode": mode})
+        acc.sample({"input": texts[0]})
         close_ctx(ctx)
     elif kind == "tower":
         _, pairs = payload
@@ -250,6 +278,9 @@ def main(run):
         for t1 in LIBTOKENS:
             for t2 in LIBTOKENS:
                 chunks.append(("tok", "L", (t1, t2), 4, True, MODES))
+    # (b2) page text with the package's own placeholder code points inside each construct
+    for t in placeholder_texts():
+        chunks.append(("texts", [t]))
     # (c) towers
     for p in TOWERS:
         chunks.append(("tower", [p]))
@@ -276,7 +307,7 @@ def main(run):
         "rule": "every string t1..tk over the %d-token alphabet T for k<=%s (and k=%s over a %d-token core); every string of 4..%s tokens over each of %d focused "
                 "12-token alphabets (links, tables, lists, html, calls, headings); every k<=%s string over "
                 "a %d-token alphabet with calls to 7 structural templates under %d expansion modes; towers open^d x close^d, "
-                "unclosed and over-closed for %d nestable constructs and every d in 1..100%s. Non-trivial = distinct tree skeleton "
+                "unclosed and over-closed for %d nestable constructs and every d in 1..100; 43 texts with the package's own placeholder code points inside each construct%s. Non-trivial = distinct tree skeleton "
                 "(kinds + nesting, text ignored) with >= 3 node kinds."
                 % (len(TOKENS), "3" if q else "4", "4" if q else "5", 24 if q else 30, "5" if q else "6", len(FOCUS), "3" if q else "4", len(LIBTOKENS),
                    len(MODES), len(TOWERS), "" if q else "; every single-token deletion at every position of the 3 real pages in /repo/tests, every insertion of "
